@@ -34,3 +34,61 @@ pub fn drop_glue_write_adapter(a: WriteAdapter, Tracked(w): Tracked<&mut World>)
     a.drop_impl();
     drop_glue_popen(a.0, Tracked(w));
 }
+
+// ---- Vec<Popen>: elements are dropped in order
+pub open spec fn all_stage_ok(v: Seq<Popen>, w: BW) -> bool { forall|i: int| 0 <= i < v.len() ==> stage_ok(#[trigger] v[i], w) }
+pub open spec fn distinct_stages(v: Seq<Popen>) -> bool {
+    forall|i: int, j: int| 0 <= i < j < v.len() && (#[trigger] v[i]).child_state is Running && (#[trigger] v[j]).child_state is Running ==> v[i].child_state->pid != v[j].child_state->pid
+}
+pub open spec fn all_wait_safe(v: Seq<Popen>) -> bool {
+    forall|i: int| 0 <= i < v.len() && !(#[trigger] v[i]).detached && v[i].child_state is Running ==> holds_no_pipe(v[i])
+}
+pub open spec fn all_reaped(v: Seq<Popen>, w: BW) -> bool { forall|i: int| 0 <= i < v.len() ==> reaped_or_detached(#[trigger] v[i], w) }
+
+pub fn drop_glue_vec_popen(v: Vec<Popen>, Tracked(w): Tracked<&mut World>)
+    requires all_stage_ok(v@, old(w).s), all_wait_safe(v@), //[C12,C14]
+    ensures all_reaped(v@, final(w).s), same_stages_mod_reaped(old(w).s, final(w).s), //[C12,C14]
+{
+    let mut v = v;
+    let ghost v0 = v@;
+    let ghost mut i: int = 0;
+    while v.len() > 0
+        invariant
+            0 <= i, v@.len() + i == v0.len(), forall|j: int| 0 <= j < v@.len() ==> v@[j] == v0[i + j],
+            all_stage_ok(v0, w.s), all_wait_safe(v0), same_stages_mod_reaped(old(w).s, w.s),
+            forall|j: int| 0 <= j < i ==> reaped_or_detached(#[trigger] v0[j], w.s),
+        decreases v@.len()
+    {
+        let p = v.remove(0);
+        assert(p == v0[i]);
+        drop_glue_popen(p, Tracked(w));
+        proof { i = i + 1; }
+    }
+}
+pub fn drop_glue_read_pipeline_adapter(a: ReadPipelineAdapter, Tracked(w): Tracked<&mut World>)
+    requires a.0@.len() >= 1, all_stage_ok(a.0@, old(w).s),
+        // what Pipeline::stream_stdout hands out: only the last stage still holds a pipe end (its stdout)
+        forall|i: int| 0 <= i < a.0@.len() ==> (#[trigger] a.0@[i]).stdin.is_none() && a.0@[i].stderr.is_none() && (i < a.0@.len() - 1 ==> a.0@[i].stdout.is_none()),
+    ensures all_reaped(a.0@, final(w).s), same_stages_mod_reaped(old(w).s, final(w).s), //[C12]
+{
+    let ghost v0 = a.0@;
+    let mut a = a;
+    a.drop_impl();
+    let ghost v1 = a.0@;
+    assert(forall|i: int| 0 <= i < v0.len() ==> (#[trigger] v1[i]).child_state == v0[i].child_state && v1[i].detached == v0[i].detached);
+    drop_glue_vec_popen(a.0, Tracked(w));
+    assert forall|i: int| 0 <= i < v0.len() implies reaped_or_detached(#[trigger] v0[i], w.s) by { assert(reaped_or_detached(v1[i], w.s)); }
+}
+pub fn drop_glue_write_pipeline_adapter(a: WritePipelineAdapter, Tracked(w): Tracked<&mut World>)
+    requires a.0@.len() >= 1, all_stage_ok(a.0@, old(w).s),
+        forall|i: int| 0 <= i < a.0@.len() ==> (#[trigger] a.0@[i]).stdout.is_none() && a.0@[i].stderr.is_none() && (i > 0 ==> a.0@[i].stdin.is_none()),
+    ensures all_reaped(a.0@, final(w).s), same_stages_mod_reaped(old(w).s, final(w).s), //[C12]
+{
+    let ghost v0 = a.0@;
+    let mut a = a;
+    a.drop_impl();
+    let ghost v1 = a.0@;
+    assert(forall|i: int| 0 <= i < v0.len() ==> (#[trigger] v1[i]).child_state == v0[i].child_state && v1[i].detached == v0[i].detached);
+    drop_glue_vec_popen(a.0, Tracked(w));
+    assert forall|i: int| 0 <= i < v0.len() implies reaped_or_detached(#[trigger] v0[i], w.s) by { assert(reaped_or_detached(v1[i], w.s)); }
+}
